@@ -114,7 +114,7 @@ theorem C42_short_record_rejected (fam : Family) (inner : Nat → UInt8 → Byte
   have hn : body.length < 65536 := by unfold maxCiphertext at hmax; omega
   have hd := hdr_dec body.length hn
   obtain ⟨e, inp, hdisp, he⟩ := dispatch_fail t body.length
-  have hres : readRecord (decryptFam fam inner) vers (fuel + 1) st = { st with err := some e, input := inp } := by
+  have hres : readRecord (decryptFam fam inner) vers (fuel + 1) st = { st with err := some e, input := inp, macFailed := true } := by
     rw [readRecord, hraw]
     simp only [frame, List.cons_append]
     simp only [hd]
